@@ -32,7 +32,7 @@ STUB = ['dsim/vsim parser + elaborator as the judge of legality']
 ASSUMPTIONS = ['legality = the elaboration rules listed in dsim/vsim/README.md (declared once, not reserved, defined once, '
                'interfaces match, one driver per net bit); debatable rules are lenient']
 _KF = known_findings()
-PROBES = ['built_around_another_system', 'text_elaborated', 'reserved_name', 'gen_crash', 'regen_other', 'child_module', 'created_structures'] + [
+PROBES = ['system_as_top', 'built_around_another_system', 'text_elaborated', 'reserved_name', 'gen_crash', 'regen_other', 'child_module', 'created_structures'] + [
     p for p, tok in (('prefix_collision', 'prefix-collision-w'), ('clk_port', 'port-named-clk'), ('inst_port_collision', 'port-vs-instance-name'))
     if not _KF.excluded(tok)]      # naming faults of open findings are kept out of the campaign (their reproducers are replayed instead)
 
@@ -110,17 +110,19 @@ def gen(rs, tier, index):
     calls = []
     for _ in range(fr.randint(1, 4)):
         r = fr.random()
-        if r < 0.5:
+        if r < 0.1:
+            calls.append({'c': 'hier_hw'})
+        elif r < 0.5:
             calls.append({'c': 'hier', 'fresh': fr.random() < 0.5})
         elif r < 0.65:
             calls.append({'c': 'child', 'pick': fr.randrange(1 << 20), 'fresh': fr.random() < 0.5})
         elif r < 0.78:
             calls.append({'c': 'hier_created', 'fresh': fr.random() < 0.5})
         elif r < 0.9:
-            calls.append({'c': 'regen_other'})
+            calls.append({'c': 'regen_other', 'top': 'hw' if fr.random() < 0.4 else 'dut'})
         else:
             calls.append({'c': 'gen_crash'})
-    if not any(c['c'] in ('hier', 'hier_created', 'child') for c in calls):
+    if not any(c['c'] in ('hier', 'hier_created', 'child', 'hier_hw') for c in calls):
         calls.append({'c': 'hier', 'fresh': True})
     order = list(d['order'])
     rng.shuffle(order)
@@ -236,7 +238,7 @@ def run(scn, log, st):
             ob = other_circuit(scn['other_seed'])
             with quiet():
                 try:
-                    py4hw.VerilogGenerator(ob.dut).getVerilogForHierarchy()
+                    py4hw.VerilogGenerator(ob.hw if call.get('top') == 'hw' else ob.dut).getVerilogForHierarchy()
                 except Exception:
                     pass
             st.probe('regen_other')
@@ -258,7 +260,12 @@ def run(scn, log, st):
         g = py4hw.VerilogGenerator(b.dut) if call.get('fresh') else gen_obj
         try:
             with quiet():
-                if c == 'hier':
+                if c == 'hier_hw':
+                    # the whole system as the top entity
+                    text = py4hw.VerilogGenerator(b.hw).getVerilogForHierarchy()
+                    top, bb, what = None, (), 'getVerilogForHierarchy() of the HWSystem'
+                    st.probe('system_as_top')
+                elif c == 'hier':
                     text = g.getVerilogForHierarchy()
                     top, bb, what = 'Dut', (), 'getVerilogForHierarchy()'
                 elif c == 'hier_created':
